@@ -258,15 +258,12 @@ theorem BigE.transfer {P : Prog} {σ σ' : Srcs} {m m' : Maps} {e : Expr} {a v :
     cases hl' : alookup σ' (.src kv) with
     | none => rw [hl'] at hp; simp at hp
     | some nd' =>
-      have e1 := keyObs_val (m := m) hl
-      have e2 := keyObs_val (m := m') hl'
-      rw [ho] at e2; rw [e1] at e2; cases e2
       have := BigE.src (P := P) (m := m') h1 hl'
       rw [ho] at this
       have hv : nd'.val = nd.val := by
         have e1 := keyObs_val (m := m) hl
         have e2 := keyObs_val (m := m') hl'
-        rw [ho] at e2; rw [e1] at e2; cases e2; rfl
+        rw [ho] at e2; rw [e1] at e2; exact (Option.some.inj e2).symm
       rw [hv] at this; exact this
   | @sing i a nd hl =>
     intro hall
@@ -277,7 +274,7 @@ theorem BigE.transfer {P : Prog} {σ σ' : Srcs} {m m' : Maps} {e : Expr} {a v :
       have hv : nd'.val = nd.val := by
         have e1 := keyObs_val (m := m) hl
         have e2 := keyObs_val (m := m') hl'
-        rw [ho] at e2; rw [e1] at e2; cases e2; rfl
+        rw [ho] at e2; rw [e1] at e2; exact (Option.some.inj e2).symm
       have := BigE.sing (P := P) (m := m') (a := a) hl'
       rw [ho, hv] at this; exact this
   | @trk i a nd hl =>
